@@ -55,7 +55,7 @@ def import_from(src):
             print("imported", sid)
 
 
-def confirm(sid, tier, also):
+def confirm(sid, tier, also, base="HEAD"):
     d = os.path.join(SEEDED, sid)
     meta = json.load(open(os.path.join(d, "meta.json")))
     prop = meta["property"]
@@ -63,7 +63,7 @@ def confirm(sid, tier, also):
     os.rmdir(wt)
     res = {"id": sid, "property": prop}
     try:
-        rc, out = sh(["git", "-C", "/repo", "worktree", "add", "--detach", "-f", wt, "HEAD"])
+        rc, out = sh(["git", "-C", "/repo", "worktree", "add", "--detach", "-f", wt, base])
         if rc:
             raise RuntimeError(out)
         demo = os.path.join(wt, "_seed_demo.py")
@@ -71,6 +71,14 @@ def confirm(sid, tier, also):
         env = dict(os.environ, PYTHONDONTWRITEBYTECODE="1")
         rc, out = sh([PY, "-B", demo], cwd=wt, env=env, timeout=600)
         res["demo_clean_rc"] = rc
+        baseline = set()
+        if base != "HEAD":
+            # the change was written against an older commit that later repairs have moved away from: what the check says
+            # about that commit without the change is the baseline, only signatures beyond it count
+            res["base"] = base
+            rc, out = sh([os.path.join(VERIF, "check"), prop, "--tier", tier], cwd=VERIF, env=dict(env, MPSIM_REPO=wt), timeout=3600)
+            baseline = set(re.findall(r"^violation signature: (.*?) \(\d+ runs\)", out, re.M))
+            res["baseline_signatures"] = sorted(baseline)
         rc, out = sh(["git", "apply", os.path.join(d, "patch.diff")], cwd=wt)
         res["applies"] = rc == 0
         if rc:
@@ -91,6 +99,11 @@ def confirm(sid, tier, also):
             sigs = re.findall(r"^violation signature: (.*?) \(\d+ runs\)", out, re.M)
             counts = [int(x) for x in re.findall(r"^violation signature: .*? \((\d+) runs\)", out, re.M)]
             m = re.search(r"^runs=(\d+)", out, re.M)
+            if baseline:
+                keep = [i for i, s_ in enumerate(sigs) if s_ not in baseline]
+                sigs = [sigs[i] for i in keep]
+                counts = [counts[i] for i in keep if i < len(counts)]
+                rc = 1 if sigs else 0
             res["checks"][p] = {"rc": rc, "violations": len(re.findall(r"^VIOLATION ", out, re.M)), "signatures": sigs[:12],
                                 "runs": int(m.group(1)) if m else None, "max_runs_per_signature": max(counts) if counts else 0,
                                 "harness": len(re.findall(r"^HARNESS-ERROR", out, re.M))}
@@ -112,6 +125,7 @@ def main():
     ap.add_argument("--import", dest="imp")
     ap.add_argument("--tier", default="quick")
     ap.add_argument("--also", default="")
+    ap.add_argument("--base", default="HEAD", help="commit the changes were written against (default: /repo HEAD)")
     args = ap.parse_args()
     if args.imp:
         import_from(args.imp)
@@ -119,7 +133,7 @@ def main():
     also = [x for x in args.also.split(",") if x]
     rows = []
     for sid in ids:
-        r = confirm(sid, args.tier, also)
+        r = confirm(sid, args.tier, also, args.base)
         rows.append(r)
         ck = r.get("checks", {})
         print("%-10s confirmed=%-5s tests=%s demo(clean/patched)=%s/%s  checks: %s" % (
